@@ -23,6 +23,35 @@ def is_unchecked_str_callee(ce):
     return "str" in p or "String" in p or "string" in p
 
 
+def private_helper_of_anchor(F, b):
+    """b is a non-public fn/method whose every caller is <StringRegion as Region>::index"""
+    if b.d.get("vis_pub") or b.kind not in ("Fn", "AssocFn"):
+        return False
+    if not b.key.startswith("flatcontainer::impls::string::"):
+        return False
+    callers = []
+    for key, d in F.raw_bodies.items():
+        for bl in d["blocks"]:
+            t = bl["term"]
+            if t["k"] == "call" and t.get("callee") and (t["callee"]["key"] == b.key or
+                                                         (t["callee"].get("resolved") or {}).get("key") == b.key):
+                callers.append(d)
+        for bl in d["blocks"]:
+            for st in bl["stmts"]:
+                if st["k"] == "assign":
+                    # function item taken as a value: treat as an unknown caller
+                    if b.key in repr(st["rv"]) and '"fn"' in repr(st["rv"]).replace("'", '"'):
+                        return False
+    if not callers:
+        return False
+    for d in callers:
+        ow = d["owner"]
+        if not (d["name"] == "index" and (ow.get("trait") or "").endswith("Region") and
+                (ow.get("impl_self") or {}).get("adt") == STRING_REGION):
+            return False
+    return True
+
+
 def r_unsafe(F, R):
     anchors = 0
     sites = 0
@@ -50,6 +79,11 @@ def r_unsafe(F, R):
                 detail = "argument = " + show(tr)
                 if ok:
                     anchors += 1
+            elif private_helper_of_anchor(F, b):
+                # a private helper all of whose callers are the anchor (it is inlined there and the
+                # argument is checked at that call site)
+                ok = True
+                detail = "private helper called only from StringRegion::index (argument checked there)"
             else:
                 detail = "unchecked str constructor outside StringRegion::index"
             R.saw(b)
@@ -187,26 +221,31 @@ def r_strwrite(F, R, cat=None):
                                 detail="hands out a mutable reference to the byte region")
     R.floor("R-STRWRITE", "byte pushes into StringRegion.inner", n_push, 1)
     # (4) codec decode: result is the argument or a whole dictionary entry
+    from expr import ret_alts, nobb, NONE
     for b in F.methods_of_trait("Codec", "decode"):
         R.saw(b)
         ctx = Ctx(b)
         ok = True
         why = []
-        for (c, (r, p)) in value_sources(F, ctx, ctx.org.local(0)):
-            if r == ("arg", 2) and p == () and c is ctx:
+        for t in ret_alts(ctx):
+            t = nobb(t)
+            if t == ("place", b.key, ("arg", 2), ()):
                 why.append("argument bytes")
-            elif r[0] == "call":
-                tag = callee_tag(c.body.term(r[1]).get("callee"))
-                if tag == ("BytesMap", "get"):
-                    why.append("whole BytesMap entry")
-                else:
-                    ok = False
-                    why.append("result of %s::%s" % tag)
+            elif t[0] == "call" and t[1] == ("BytesMap", "get") and tuple(t[3]) in ((), ("v:Some", "f:0")):
+                why.append("whole BytesMap entry")
+            elif t[0] == "call" and t[1][0] == "Option" and t[3] and \
+                    any(nd[0] == "call" and nd[1] == ("BytesMap", "get") for nd in walk_nodes(t)):
+                why.append("whole BytesMap entry")
             else:
                 ok = False
-                why.append(describe(c, (r, p)))
+                why.append(show(t)[:100])
         R.check("R-STRWRITE", b.label(), ok and bool(why), construct="decode returns argument or whole entry",
                 where=b.where(), detail=", ".join(sorted(set(why))))
+
+
+def walk_nodes(t):
+    from r_bracket import walk
+    return walk(t)
 
 
 LOOK_THROUGH = {("Option", "and_then"), ("Option", "map"), ("Option", "or_else"),
